@@ -47,6 +47,11 @@ def execute(case):
     E = {t: sum(1 for e in case["edges"] if e[2] == t) for t in tops}
     try:
         ex = gcmpy.JointExcessJointDegree({TN.NETWORK: G, TN.EDGE_NAMES: tops})
+        if case.get("pre_abort") is not None:
+            # crash point: an earlier extraction on this extractor was abandoned part-way (Mixing!AbortExtraction); the caller kept it
+            from ..crash import abort_frac
+            tr["pre_abort_outcome"] = abort_frac(lambda: gcmpy.JointExcessJointDegree({TN.NETWORK: build_graph(case), TN.EDGE_NAMES: tops}).get_ejks(),
+                                                 ex.get_ejks, case["pre_abort"])
         held = []
         for c in range(case.get("ncalls", 3)):
             m = ex.get_ejks()
@@ -81,7 +86,8 @@ def cases(chk):
         if rng.random() < 0.3:      # annotations need not agree with the actual degrees: the law is stated on annotations
             jd = [tuple(max(1, x + rng.choice([0, 0, 1])) for x in j) for j in jd]
         cs.append({"edges": es, "jd": jd, "tops": tops, "ncalls": rng.choice([1, 2, 3, 4]), "labels": rng.choice(["id", "shift", "big"]),
-                   "jd_as_list": i % 3 == 1, "weights": i % 4 == 3})          # annotations stored as lists (the generators keep whatever sequence they get)
+                   "jd_as_list": i % 3 == 1, "weights": i % 4 == 3,
+                   "pre_abort": [None, None, rng.random()][i % 3]})          # annotations stored as lists (the generators keep whatever sequence they get)
     return cs
 
 
@@ -92,9 +98,12 @@ def _key(tr, v):
 def run(chk):
     chk.mc("MC_Mixing", "MC_Mixing.cfg", required=["MNext"])
     chk.mc("MC_Mixing", "MC_Mixing_accumulate.cfg", expect_violation="C13_Exact")
+    from .. import crash
+    crash.mc(chk)
     traces = [execute(c) for c in cases(chk)]
     chk.add_sample(traces[2]); chk.add_sample(traces[-1])
     chk.judge("MixingTrace", "MixingTrace.cfg", traces, label="C13", key_fn=_key, heap="3g", parallel=8)
+    chk.extra["extractions_judged_after_an_abandoned_extraction"] = sum(1 for t in traces if t.get("pre_abort_outcome") == "aborted")
     chk.nontrivial = len({json.dumps(t["g0"]) + json.dumps(t["jd"]) for t in traces if len(t["calls"]) > 1})
     chk.extra["rule"] = "one case = one annotated network with 1..4 successive extractions on one extractor; non-trivial = at least two extractions; distinct by (graph, annotations)"
     chk.assumptions += ["vertex annotations are positive in a topology wherever the vertex has an edge of it (excess tuples non-negative)"]
